@@ -4,7 +4,7 @@ from __future__ import annotations
 from collections import Counter
 from fractions import Fraction as F
 
-from harness.common import Disagreement, StreamResult, area_rows, budget, import_fractopo, lines, rng_for
+from harness.common import Disagreement, StreamResult, area_rows, budget, import_fractopo, lines, rat, rng_for
 from harness.mapgen import Arrangement, arr_request, match_branches, match_points, to_float_lines, valid_maps
 
 ROUTES = ("direct", "network")
@@ -105,10 +105,60 @@ def s01_arrangement(ctx):
     return res
 
 
-STREAMS = [s01_arrangement]
+def s01_generated(ctx):
+    """translator validation, end to end: the REGENERATED branches_and_nodes (orchestration + snapping pass + node table + branch labels,
+    compiled into gen_c01; exact clip / noding for GEOS) on the valid maps of S01 vs the exact arrangement the real code is compared with"""
+    import_fractopo()
+    from harness.mapgen import Arrangement
+
+    res = StreamResult("S01-generated", rule="regenerated branches_and_nodes end to end (Lean, compiled: orchestration, snap_traces and everything below it, node table, branch "
+                       "labels; exact clipping and noding in place of GEOS) on valid maps of the S01 generator, both already_clipped routes: node multiset (point, class) and "
+                       "branch multiset (label, end points) must equal the exact planar arrangement that S01 holds the real code to; non-trivial = map with an X or Y node")
+    if ctx.gen is None:
+        res.note = "gen_c01 not built (a generated module is broken): skipped"
+        res.skipped["generated_driver_not_built"] = 1
+        return res
+    rng = rng_for(ctx.seed, "S01g")
+    per = budget(ctx.tier, 12, 200)
+    allmaps = []
+    for unit, off, t in SCALES[:3] + SCALES[-1:]:
+        maps, _ = valid_maps(ctx, rng, per, F(t), unit=unit, off=off)
+        allmaps += [(m, t) for m in maps]
+    reqs = []
+    for (traces, area, kind, ar), t in allmaps:
+        reqs.append(f"gpipe t={rat(F(t))} areas={area_rows([area])} traces={lines(traces)} clipped=0")
+        reqs.append(f"gpipe t={rat(F(t))} areas={area_rows([area])} traces={lines(ar.pieces)} clipped=1")
+    resps = ctx.gen.parallel(reqs)
+
+    def canon(a):
+        return (Counter((p, c) for p, c in a.nodes), Counter((lab, frozenset((p, q))) for lab, p, q in a.branches))
+
+    for i, ((traces, area, kind, ar), t) in enumerate(allmaps):
+        res.evaluations += 1
+        if any(c in "XY" for _, c in ar.nodes):
+            res.nontrivial += 1
+        want = canon(ar)
+        for route, resp in (("already_clipped=False", resps[2 * i]), ("already_clipped=True on the clipped pieces", resps[2 * i + 1])):
+            if resp.startswith("err=") or resp.startswith("error="):
+                got = resp.strip()
+            else:
+                g = Arrangement("valid=1 wellformed=1 " + resp.strip())
+                got = canon(g)
+            if got != want:
+                res.disagreements.append(Disagreement("S01-generated", {"stream": "S01-generated", "t": t, "traces": lines(traces), "areas": area_rows([area]), "route": route},
+                                                      {"nodes": dict(Counter(c for _, c in ar.nodes)), "branches": len(ar.branches)}, resp[:400], None,
+                                                      "the regenerated branches_and_nodes (Lean) does not produce the exact planar arrangement"))
+    res.samples = [{"request": reqs[0][:300], "response": resps[0][:300]}] if reqs else []
+    return res
+
+
+STREAMS = [s01_arrangement, s01_generated]
 
 
 def replay(ctx, stream, case):
+    if stream == "S01-generated":
+        r = s01_generated(ctx)
+        return r.disagreements[0] if r.disagreements else None
     import_fractopo()
     from harness.common import parse_lines
     from harness.streams.c05 import replay as _  # noqa: F401
